@@ -172,3 +172,125 @@ def replay(path):
 def selftest():
     print("selftest: not implemented yet")
     return 0
+
+
+# ----------------------------------------------------------------------- C07
+VOCAB_FAULT = ["D", "A:B", ":C", "*X", "B:D?", "Z", "A", "D !", "A:N", "A:N 999", "A:N 'x'", "A:T 2", "A:F", "A:G?",
+               "A:N 7", "A:E? 'q'"]
+TINY_SIGMA = "AB:?;\n \"!"
+
+
+def compositions(n):
+    """all ways to split n bytes into a sequence of positive chunk sizes"""
+    if n == 0:
+        return [[]]
+    out = []
+    for mask in range(1 << (n - 1)):
+        cur, parts = 1, []
+        for i in range(n - 1):
+            if mask >> i & 1:
+                parts.append(cur)
+                cur = 1
+            else:
+                cur += 1
+        parts.append(cur)
+        out.append(parts)
+    return out
+
+
+def variants_for(rng, n, full):
+    """delivery schedules for a stream of n bytes"""
+    vs = [{"chunks": []}, {"chunks": [1] * n}]
+    if full and n <= 7:
+        vs += [{"chunks": c} for c in compositions(n)[1:-1]]
+    else:
+        for _ in range(6):
+            vs.append({"chunks": random_chunks(rng, n)})
+    # empty reads interleaved, suspended futures
+    c = random_chunks(rng, n)
+    vs.append({"chunks": [x for k in c for x in (0, k)]})
+    vs.append({"chunks": random_chunks(rng, n), "pend": [rng.randint(0, 2) for _ in range(5)],
+               "susp": [rng.randint(0, 2) for _ in range(3)]})
+    return vs
+
+
+def msgs_fit(msgs, N):
+    return all(len(m) <= N and m.count(b"\n" if isinstance(m, bytes) else "\n") == 1 for m in msgs)
+
+
+def procset_case(stream, N, variants, iface="main", msgs=None):
+    c = {"kind": "procset", "iface": iface, "N": N, "stream": b(stream), "variants": variants}
+    if msgs is not None:
+        c["msgs"] = [b(m) for m in msgs]
+    return c
+
+
+def mc_proc_params(iface, sigma, N, maxlen, legacy="", faults=True):
+    return ("MCScpiProcessParams", [
+        ("IfaceName", '"%s"' % iface), ("Sigma", "{%s}" % ",".join(str(ord(c)) for c in sigma)),
+        ("N", str(N)), ("MaxLen", str(maxlen)), ("Legacy", "{%s}" % legacy),
+        ("ModelFaults", "TRUE" if faults else "FALSE")])
+
+
+def c07(tier):
+    s = Session("C07", tier)
+    C.build_harness()
+    C.write_ifaces_module(s.wd)
+    # 1. implementation-shaped process vs the byte-wise ideal, every chunk size and content at every read
+    mcs = [(4, 6)] if tier == "quick" else [(3, 7), (4, 7), (5, 7), (6, 8)]
+    for (N, ml) in mcs:
+        s.model("MCScpiProcess", mc_proc_params("tiny", TINY_SIGMA, N, ml), workers=8 if tier == "quick" else 14,
+                label="MCScpiProcess(N=%d,stream<=%d)" % (N, ml), timeout=3000, heap="16g")
+    s.model("MCScpiProcess", mc_proc_params("tiny", TINY_SIGMA, 4, 6, legacy='"overflow"'), expect_violation="SameCarry",
+            label="MCScpiProcess legacy overflow-before-compaction")
+    cases = []
+    # 2a. every stream over the tiny alphabet up to a length bound, every composition, N around the length
+    import itertools
+    L = 4 if tier == "quick" else 5
+    for n in range(1, L + 1):
+        for t in itertools.product(TINY_SIGMA, repeat=n):
+            st = "".join(t)
+            if "\n" not in st:
+                continue
+            for N in sorted({max(1, n - 1), n, n + 1, 16}):
+                cases.append(procset_case(st, N, [{"chunks": c} for c in compositions(n)], iface="tiny"))
+    # 2b. message streams over the main interface: path rules, faults, queries
+    hist = []
+    s.model("MCScpiRun", mc_run_params(VOCAB_FAULT, 2, 2, emit=True), on_line=lambda it: hist.append(it["msgs"]),
+            label="MCScpiRun(fault vocabulary, units<=2, msgs<=2)")
+    s.rng.shuffle(hist)
+    nh = 2500 if tier == "quick" else 30000
+    for h in hist[:nh]:
+        msgs = [bytes(m) for m in h]
+        whole = b"".join(msgs)
+        n = len(whole)
+        N = s.rng.choice([min(32, max(len(m) for m in msgs)), min(n, 32), min(n + 1, 32), 16, 32, 64])
+        fit = N if msgs_fit(msgs, N) else None
+        cases.append(procset_case(whole, N, variants_for(s.rng, n, False), msgs=msgs if fit else None))
+    # 2c. seeded long streams, also arbitrary bytes
+    nlong = 40 if tier == "quick" else 400
+    for i in range(nlong):
+        msgs = [m.encode("latin1") for m in random_history(s.rng, VOCAB_FAULT + VOCAB_PATH, s.rng.randint(10, 80))]
+        whole = b"".join(msgs)
+        if i % 4 == 3:   # corrupt: arbitrary bytes
+            ba = bytearray(whole)
+            for _ in range(len(ba) // 10 + 1):
+                ba[s.rng.randrange(len(ba))] = s.rng.randrange(256)
+            whole, msgs = bytes(ba), None
+        N = s.rng.choice([8, 16, 47, 64, 128])
+        ok = msgs is not None and msgs_fit(msgs, N)
+        cases.append(procset_case(whole, N, variants_for(s.rng, len(whole), False), msgs=msgs if ok else None))
+    recs = s.execute(cases, "c07")
+    rejected = s.validate(recs, "c07", chunk=400 if tier == "quick" else 800)
+    s.report_rejected(rejected, "process produced different handler calls / errors / response bytes for two delivery schedules of one stream, "
+                                "or an outcome the stream semantics of the specification does not allow")
+    s.sample(recs[:1] + recs[-1:])
+    s.cov["delivery_schedules_executed"] = sum(len(c["variants"]) for c in cases)
+    s.cov["rule"] = ("every byte stream over a 9-symbol alphabet up to the length bound under every composition into reads and four "
+                     "buffer sizes; TLC-enumerated and seeded message streams under seeded schedules (single bytes, empty reads, exact "
+                     "fill, suspended futures); non-trivial = invoked a handler, reported an error or wrote output; distinct by stream")
+    s.assumptions += ["the scripted transport delivers exactly the scheduled chunks", "bounds as stated in coverage.models"]
+    return s.finish(exhaustive=True)
+
+
+CHECKS["C07"] = c07
